@@ -41,11 +41,14 @@ TEMPS = ["temp", "mem"]
 TARGETS = ["path", "fileobj"]
 VIAS = ["writefs", "compress"]
 
-# a signature per class of genuine defect (see findings/C15-*.md)
-SIG_ZIP_KEYERROR = "C15/zip/unnormalised-member-name/KeyError"
-SIG_TAR_INFONAME = "C15/tar/info-name-from-raw-member-name"
-SIG_TAR_EMPTYROOT = "C15/tar/empty-archive-root-not-dir"
+# The only open known finding of this property (known_findings.json, consulted through
+# rep.match_known inside rep.violation): findings/C15-zip-localtime.md.
 SIG_ZIP_TZ = "C15/zip/localtime-read-as-utc"
+# Classes of defects that were found by this check and are FIXED in /repo (findings/applied/):
+# they are ordinary compared cases now — the signatures only label a replay should one return.
+SIG_ZIP_KEYERROR = "C15/zip/unnormalised-member-name/KeyError"      # fix 1679dcb
+SIG_TAR_INFONAME = "C15/tar/info-name-from-raw-member-name"         # fix b3e3bd5
+SIG_TAR_EMPTYROOT = "C15/tar/empty-archive-root-not-dir"            # fix e5a4c4f
 
 NAME_POOL = [
     "a", "ab", "a.b", "b", "c", "readme.txt", ".hidden", "...", "x.", " lead", "trail ", "two  spaces",
@@ -85,19 +88,13 @@ def call(fn, seconds=20):
         return ("err", fam(e), "%s.%s" % (type(e).__module__, type(e).__name__))
 
 
-MAX_REPORTED = 8
 LEANCHECKER_MODULES = ["FsProofs.C15", "FsProofs.Lemmas.ArchiveLemmas", "FsProofs.Lemmas.ZipLemmas",
                        "FsProofs.Lemmas.TarLemmas", "FsModel.Archive"]
 
 
 def report(rep, case, note, found_input=True, signature=None):
-    """rep.violation with a cap on the number of reported cases; cases that match an open
-    known finding always go through (they are printed once and never counted)."""
-    if signature and rep.match_known(signature) is not None:
-        return rep.violation(case, note, found_input=found_input, signature=signature)
-    if len(rep.violations) >= MAX_REPORTED:
-        rep.count("violations-not-reported(cap)")
-        return False
+    """rep.violation consults known_findings.json (rep.match_known) and caps the number of
+    reported cases itself; this wrapper only exists to keep the call sites short."""
     return rep.violation(case, note, found_input=found_input, signature=signature)
 
 
@@ -635,8 +632,7 @@ def judge_roundtrip(rep, drv, cfg, tree, mt, res):
     if bad:
         report(rep, dict(case, observed=bad), "%s via %s (temp_fs=%s, target=%s): %s" % (fmt, cfg[3], cfg[1], cfg[2], bad),
                       found_input=True, signature=sig or "C15/%s/roundtrip" % fam_)
-        if sig is None:
-            return
+        return
     # ---- correspondence with the model (tree given in the source's own listing order)
     mtree = [(e[0], e[1]) if e[0] == "D" else ("F", e[1], e[2]) for e in src]
     smt = {e[1]: e[4] for e in src if e[4] is not None}
@@ -666,7 +662,7 @@ def judge_roundtrip(rep, drv, cfg, tree, mt, res):
                 if rq != mq:
                     dis = "queries on path %r: code %s | model %s" % (p, rq, mq)
                     break
-    if dis and sum(1 for v in rep.violations if not v["found_input"]) < 4:
+    if dis:
         rep.disagreements_checked += 1
         report(rep, dict(case, disagreement=dis),
                       "correspondence Archive model vs fs.compress / Read%sFS broke (%s); the round-trip oracle holds on this input"
@@ -831,7 +827,7 @@ def hostile_case(rep, drv, fmt, ms, target_kind="path"):
                 if a != b:
                     dis = "queries on path %r: code %s | model %s" % (p, a, b)
                     break
-        if dis and sum(1 for v in rep.violations if not v["found_input"]) < 4:
+        if dis:
             rep.disagreements_checked += 1
             report(rep, dict(case, disagreement=dis),
                           "correspondence Archive read model vs Read%sFS broke on a hand-crafted archive %r (%s)"
